@@ -130,6 +130,17 @@ def run(tier, seed, out, drv, facts):
         for v in progcheck.verdicts(got):
             out.count("verdict_" + v)
     direct_cases(out)
+    # broadcastable multi-axis `?` names: what a position has seen so far is the broadcast of its shapes, kept under the
+    # position's own key — a third tree must agree with it, and a plain axis of the same name is somebody else
+    bq = {"t": "pytree", "l": arr_type("#*?s"), "s": "T"}
+    one = lambda sh: {"t": "tuple", "xs": [arr_val(sh)]}  # noqa: E731
+    for third, plain_shape in (([5, 3], [7]), ([2, 3], [7]), ([1, 1], [9, 9]), ([4, 1], [2])):
+        for plain_dims in ("*s", "#*s"):
+            body = [{"op": "check", "l": bq, "x": one([1, 3])}, {"op": "check", "l": bq, "x": one([2, 1])}, P, {"op": "check", "l": bq, "x": one(third)}, P,
+                    {"op": "check", "l": arr_type(plain_dims), "x": arr_val(plain_shape)}, P, {"op": "check", "l": bq, "x": one([2, 3])}, P]
+            prog = [{"op": "ctx", "body": body, "exit": "ret"}]
+            got, want = progcheck.compare_program(out, drv, facts, prog, "qmark-broadcast", rng=rng, as_violation=as_violation)
+            out.case(("qmark-broadcast", json.dumps(third), plain_dims), True, sample={"third": third, "plain": plain_dims, "observed": progcheck.verdicts(got)})
     # errors: outside a structured PyTree, beneath two
     q = arr_type("?n")
     cases = [
@@ -179,6 +190,28 @@ def direct_cases(out):
         out.case(("shared-object", name), True, sample={"case": name, "verdicts": got})
         if got != want:
             out.violation("shared-object:" + name.split(",")[0].replace(" ", "-")[:40], f"{name}: verdicts {got} but every leaf POSITION has its own '?n' axis, so they must be {want}", {"direct": "shared-object"})
+
+    # leaf types the typechecker looks INTO although `typing.get_args` shows nothing: a NamedTuple class (checked field by
+    # field), a NewType (checked against its supertype) — a `?` axis anywhere inside the leaf type is usable, per position
+    class Rec(typing.NamedTuple):
+        vec: Float[Duck, "?n"]
+        mat: Float[Duck, "?n 2"]
+
+    VecT = typing.NewType("VecT", Float[Duck, "?n"])
+    QR, QN = PyTree[Rec, "T"], PyTree[VecT, "T"]
+    looked_into = [
+        ("NamedTuple leaf type, consistent per position", [([Rec(Duck((3,)), Duck((3, 2))), Rec(Duck((4,)), Duck((4, 2)))], QR), ([Rec(Duck((3,)), Duck((3, 2))), Rec(Duck((4,)), Duck((4, 2)))], QR)], ["T", "T"]),
+        ("NamedTuple leaf type, fields of one leaf disagree", [([Rec(Duck((3,)), Duck((4, 2)))], QR)], ["F"]),
+        ("NamedTuple leaf type, position 1 differs in the second tree", [([Rec(Duck((3,)), Duck((3, 2))), Rec(Duck((4,)), Duck((4, 2)))], QR), ([Rec(Duck((3,)), Duck((3, 2))), Rec(Duck((5,)), Duck((5, 2)))], QR)], ["T", "F"]),
+        ("NewType leaf type, per-position sizes", [((a3, a4), QN), ((Duck((3,)), Duck((4,))), QN)], ["T", "T"]),
+        ("NewType leaf type, position 1 differs", [((a3, a4), QN), ((a3, a7), QN)], ["T", "F"]),
+    ]
+    for name, pairs, want in looked_into:
+        got = seq(*pairs)
+        out.case(("looked-into-leaf-type", name), True, sample={"case": name, "verdicts": got})
+        if got != want:
+            out.violation("looked-into:" + name.split(",")[0].replace(" ", "-")[:40], f"{name}: verdicts {got}, must be {want} (a '?' axis inside the leaf type of one structured PyTree is "
+                          f"usable and belongs to the leaf position)", {"direct": "looked-into"})
 
     class Boom(Exception):
         pass
